@@ -53,6 +53,7 @@ type wBatchCtx struct {
 	writeIdx int
 	info     *protocol.AnchoringInfo
 	time     int64
+	files    [][]byte // what this batch wrote to CAS (compressed content)
 }
 
 type wWorld struct {
@@ -62,6 +63,8 @@ type wWorld struct {
 	start  time.Time
 
 	maxOps   uint
+	maxOpsBy map[uint64]uint // per protocol version (genesis time)
+	passMax  []uint // MaxOperationCount of every version that was current at some seam call of the writer in this pass
 	versions []*simenv.Version
 	proto    *simenv.ProtoClient
 	cas      *simenv.CAS
@@ -155,11 +158,13 @@ func runWorldW(rc *RunCtx, prop, driver string) *RunResult {
 
 	// ---- the simulated outside world
 	w.cas = simenv.NewCAS(k, "cas")
-	w.cas.WriteFault = func(_ int, _ []byte) error {
+	w.cas.WriteFault = func(_ int, content []byte) error {
 		c := w.cur
 		if c == nil || k.IsInline() {
 			return nil
 		}
+
+		c.files = append(c.files, append([]byte(nil), content...))
 
 		idx := c.writeIdx
 		c.writeIdx++
@@ -196,6 +201,9 @@ func runWorldW(rc *RunCtx, prop, driver string) *RunResult {
 
 	var genesis []uint64
 
+	w.maxOpsBy = map[uint64]uint{}
+	variedMax := nVersions > 1 && !big && T.Draw(3, "cfg.maxOps.varied") == 0
+
 	for i := 0; i < nVersions; i++ {
 		g := uint64(0)
 
@@ -215,6 +223,13 @@ func runWorldW(rc *RunCtx, prop, driver string) *RunResult {
 
 		p := simenv.DefaultProtocol(g)
 		p.MaxOperationCount = w.maxOps
+
+		// a later version may change the maximum batch size
+		if i > 0 && variedMax {
+			p.MaxOperationCount = uint(T.Range(1, 6, "cfg.maxOps.version"))
+		}
+
+		w.maxOpsBy[g] = p.MaxOperationCount
 		p.MaxOperationTimeDelta = uint64(20 + 10*i)
 
 		v := simenv.NewVersion(p, &simenv.VersionDeps{CAS: w.cas, Compression: comp, TimeValidator: w.tv})
@@ -229,6 +244,11 @@ func runWorldW(rc *RunCtx, prop, driver string) *RunResult {
 
 	w.proto = simenv.NewProtoClient(k, w.ledgerNow, w.versions...)
 	w.proto.YieldLabel = "proto"
+	w.proto.OnCurrent = func(v *simenv.Version) {
+		if k.Cur() == "W" {
+			w.passMax = append(w.passMax, v.P.MaxOperationCount)
+		}
+	}
 
 	w.q = &simenv.QueueProxy{K: k, Label: "q", Real: &opqueue.MemQueue{}, Prop: "C16"}
 	w.q.AddFault = func() error {
@@ -239,6 +259,11 @@ func runWorldW(rc *RunCtx, prop, driver string) *RunResult {
 		return nil
 	}
 	w.q.OnRemove = w.onRemove
+	w.q.OnSeam = func(string) {
+		if k.Cur() == "W" {
+			w.passMax = append(w.passMax, w.proto.CurrentVersion().P.MaxOperationCount)
+		}
+	}
 	w.q.OnNack = func(items []simenv.QItem) {
 		if k.ParkedAt(".Add", "W") {
 			k.Count("probe:nack-with-add-in-flight")
@@ -514,6 +539,7 @@ func (w *wWorld) advanceToTick() {
 
 	w.ticks++
 	w.passKind = kind
+	w.passMax = nil
 	w.k.SetCur("W")
 	w.k.Tr.Logf("  clock -> %v (%s tick)", at, kind)
 
@@ -532,6 +558,7 @@ func (w *wWorld) check() {
 
 		if len(ch) == 0 {
 			w.passKind = w.pendingTick
+			w.passMax = nil
 			w.pendingTick = ""
 		}
 	}
@@ -555,8 +582,28 @@ func (w *wWorld) onRemove(items []simenv.QItem, requested uint, before []simenv.
 		return
 	}
 
-	if uint(len(items)) > w.maxOps {
-		w.fail("C16", "cut/too-large", fmt.Sprintf("cut of %d operations exceeds MaxOperationCount %d", len(items), w.maxOps))
+	// "the protocol's maximum": versions may differ in it, and the property does not say whether the version current at
+	// the cut or the version the operations were queued under counts - a cut is too large only if it exceeds both, and
+	// under-full only if it is below both.
+	verMax := w.maxOpsBy[items[0].Version]
+	hi, lo := verMax, verMax
+
+	for _, m := range w.passMax {
+		if m > hi {
+			hi = m
+		}
+
+		if m < lo {
+			lo = m
+		}
+	}
+
+	if hi != lo {
+		k.Count("probe:cut-with-two-maxima-in-play")
+	}
+
+	if uint(len(items)) > hi {
+		w.fail("C16", "cut/too-large", fmt.Sprintf("cut of %d operations exceeds MaxOperationCount (%d for the version the operations were queued under, %v for the version(s) current during this pass)", len(items), verMax, w.passMax))
 	}
 
 	for _, it := range items[1:] {
@@ -567,7 +614,7 @@ func (w *wWorld) onRemove(items []simenv.QItem, requested uint, before []simenv.
 		}
 	}
 
-	if uint(len(items)) < w.maxOps {
+	if uint(len(items)) < lo {
 		boundary := len(before) > len(items) && before[len(items)].Version != items[0].Version
 		forced := w.passKind == "timeout" || w.passKind == "startup"
 
@@ -578,7 +625,7 @@ func (w *wWorld) onRemove(items []simenv.QItem, requested uint, before []simenv.
 		case forced:
 			k.Count("probe:underfull-forced")
 		default:
-			w.fail("C16", "cut/underfull", fmt.Sprintf("cut of %d < max %d on a %s pass with no version boundary (queue had %d)", len(items), w.maxOps, w.passKind, len(before)))
+			w.fail("C16", "cut/underfull", fmt.Sprintf("cut of %d < max %d on a %s pass with no version boundary (queue had %d)", len(items), lo, w.passKind, len(before)))
 		}
 	}
 }
@@ -866,12 +913,66 @@ func (w *wWorld) readBack(t *txn.SidetreeTxn, refs []*operation.Reference, want 
 		lastRank = r
 	}
 
+	// the same files must also be readable by a node whose size limits are exactly as tight as these files allow: every
+	// limit equal to the largest compressed file, the decompression factor the smallest that admits the largest
+	// decompressed file (within the limits is within the limits)
+	if n, err := tightReadBack(w.cas, w.cur.files, t); err != nil {
+		w.fail("C13", "readback/tight-limits", fmt.Sprintf("a batch of %d operations whose files are within the size limits (at the limit) does not read back: %v", len(want), err))
+
+		return
+	} else if n >= 0 && n != len(want) {
+		w.fail("C13", "readback/tight-limits", fmt.Sprintf("a batch of %d operations read back as %d operations under exactly sufficient size limits", len(want), n))
+
+		return
+	}
+
 	// the references handed to the anchor writer name the same suffixes
 	if len(refs) != len(want) {
 		w.fail("C13", "readback/references", fmt.Sprintf("%d operation references for %d included operations", len(refs), len(want)))
 	}
 
 	w.k.Count("probe:readback-ok")
+}
+
+// tightReadBack reads the transaction through a fresh provider whose per-type size limits all equal the largest
+// compressed file of the batch and whose decompression factor is the smallest that admits every file. Returns -1
+// when the batch's files are not known.
+func tightReadBack(cas *simenv.CAS, files [][]byte, t *txn.SidetreeTxn) (int, error) {
+	if len(files) == 0 {
+		return -1, nil
+	}
+
+	comp := simenv.NewCompressionProxy(nil)
+	limit, factor := uint(1), uint(1)
+
+	for _, f := range files {
+		if uint(len(f)) > limit {
+			limit = uint(len(f))
+		}
+	}
+
+	for _, f := range files {
+		d, err := comp.Decompress("GZIP", f)
+		if err != nil {
+			return -1, nil
+		}
+
+		if need := (uint(len(d)) + limit - 1) / limit; need > factor {
+			factor = need
+		}
+	}
+
+	p := simenv.DefaultProtocol(t.ProtocolVersion)
+	p.MaxOperationCount = 1 << 20
+	p.MaxChunkFileSize, p.MaxProvisionalIndexFileSize, p.MaxCoreIndexFileSize, p.MaxProofFileSize = limit, limit, limit, limit
+	p.MaxMemoryDecompressionFactor = factor
+
+	got, err := txnprovider.NewOperationProvider(p, operationparser.New(p), cas, comp).GetTxnOperations(t)
+	if err != nil {
+		return 0, fmt.Errorf("limits %d bytes x factor %d: %w", limit, factor, err)
+	}
+
+	return len(got), nil
 }
 
 func jsonEqual(a, b []byte) bool {
